@@ -19,7 +19,36 @@ from multiprocessing import get_context
 
 VERIF = os.path.dirname(os.path.dirname(os.path.abspath(__file__)))
 PY = "/venv/bin/python"
-RUN_WALL_CAP = 120
+RUN_WALL_CAP = 120  # CPU seconds one run may use (cfg["wall_cap"] overrides); the wall-clock backstop is 5x that
+
+
+def _arm_watchdog(cpu_cap: float) -> None:
+    """A run is cut off by the CPU time IT used, so that a machine shared with other jobs cannot turn a slow run into a
+    harness error; a wall-clock backstop (5x) still ends a run that hangs without using CPU."""
+    import signal
+
+    def on_cpu(_signum, _frame):
+        faulthandler.dump_traceback()
+        sys.stderr.write(f"[dsim] run exceeded its CPU budget of {cpu_cap} s\n")
+        sys.stderr.flush()
+        os._exit(4)
+
+    try:
+        signal.signal(signal.SIGPROF, on_cpu)
+        signal.setitimer(signal.ITIMER_PROF, float(cpu_cap))
+    except (ValueError, OSError):
+        pass  # not in the main thread
+    faulthandler.dump_traceback_later(max(600.0, 5.0 * float(cpu_cap)), exit=True)
+
+
+def _disarm_watchdog() -> None:
+    import signal
+
+    try:
+        signal.setitimer(signal.ITIMER_PROF, 0)
+    except (ValueError, OSError):
+        pass
+    faulthandler.cancel_dump_traceback_later()
 
 PROFILE_MODULES = {
     "C01": "dsim.profiles.valuesp",
@@ -111,7 +140,7 @@ def run_one(prop: str, run_seed: int, tier: str, ops=None, cfg=None, want_log=Fa
     if generated:
         cfg, ops = prof.gen(run_seed, tier, idx)
         cfg, ops = with_decoy(prof, run_seed, tier, cfg, ops)
-    faulthandler.dump_traceback_later((cfg or {}).get("wall_cap", RUN_WALL_CAP), exit=True)
+    _arm_watchdog((cfg or {}).get("wall_cap", RUN_WALL_CAP))
     world = World(run_seed)
     res = {"seed": run_seed, "prop": prop, "nops": len(ops), "violation": None, "error": None}
     sim = None
@@ -130,7 +159,7 @@ def run_one(prop: str, run_seed: int, tier: str, ops=None, cfg=None, want_log=Fa
     except Exception as e:  # noqa: BLE001
         res["error"] = "harness exception: " + "".join(traceback.format_exception(type(e), e, e.__traceback__))
     finally:
-        faulthandler.cancel_dump_traceback_later()
+        _disarm_watchdog()
         world.destroy()
         gc.collect()
     if sim is not None:
